@@ -83,6 +83,18 @@ class Gen:
             if vs and k < 0.65:
                 return ("atom", r.choice(vs))
             return ("atom", self.lit(t))
+        if r.random() < 0.2:
+            # identity / absorbing literal next to a side-effecting operand: what an algebraic simplification would touch
+            self.tagn = getattr(self, "tagn", 0) + 1
+            self.uses_trace = True
+            self.note("flat:algebraic-identity")
+            if t == INT:
+                op, lit = r.choice([("*", "0"), ("*", "1"), ("+", "0"), ("-", "0"), ("&", "0"), ("|", "0"), ("/", "1"), ("%", "1"), ("<<", "0"), ("^", "0")])
+                se = ("atom", 'N("t%d", %s)' % (self.tagn, self.lit(INT)))
+                return ("bin", op, se, ("atom", lit)) if r.random() < 0.6 or op in ("/", "%", "<<", "-") else ("bin", op, ("atom", lit), se)
+            op, lit = r.choice([("&&", "false"), ("&&", "true"), ("||", "true"), ("||", "false")])
+            se = ("atom", '%s("t%d")' % (r.choice("TF"), self.tagn))
+            return ("bin", op, se, ("atom", lit)) if r.random() < 0.6 else ("bin", op, ("atom", lit), se)
         if t == INT:
             k = r.random()
             if k < 0.7:
